@@ -1,7 +1,8 @@
 -------------------------- MODULE RateLimiterFilter --------------------------
 (* C09, filter level: pkg/filters/ratelimiter.  A filter generation owns one limiter per URL     *)
 (* rule; Handle sends a request to the limiter of the FIRST rule that matches it (methods +      *)
-(* exact / prefix match of the path) and to none if no rule matches; a rejection is the result   *)
+(* exact / prefix / regular-expression / empty match of the path - a rule may give several of    *)
+(* them, any one suffices) and to none if no rule matches; a rejection is the result             *)
 (* "rateLimited" with status 429; reload (Init / Inherit) hands the limiter of a rule that is    *)
 (* unchanged (same methods, same URL match, same policyRef, same policy content) over to the     *)
 (* new generation and creates fresh limiters for all other rules.                                *)
@@ -18,7 +19,7 @@
 (* Strings the specification looks into (paths) are sequences of one-character strings.          *)
 EXTENDS Integers, Sequences, FiniteSets
 
-CONSTANTS Specs,      \* filter specs: [id, fam, def, pols : Seq([name, L, tmo, per]), urls : Seq([ms, exact, prefix, ref])]
+CONSTANTS Specs,      \* filter specs: [id, fam, def, pols : Seq([name, L, tmo, per]), urls : Seq([ms, exact, prefix, regex, empty, ref])]
           Requests,   \* [m, path]
           Bursts,     \* sizes of request bursts (one step = that many identical requests)
           MaxReq, MaxReload
@@ -34,11 +35,34 @@ view == <<spec, lims, used, nreq, nrel>>
 
 IsPrefix(p, s) == Len(p) <= Len(s) /\ SubSeq(s, 1, Len(p)) = p
 
+(* Regular expressions (url.regex) are sequences of tokens: a one-character literal, "[ab]" (a or b),  *)
+(* "." (any character), ".*" (any string), "^" (only as the first token: anchored at the beginning)     *)
+(* and "$" (only as the last token: anchored at the end).  The concatenation of the tokens is the       *)
+(* expression the filter is given.  As regexp.MatchString does, an expression without "^" may match     *)
+(* anywhere in the path.                                                                                *)
+Cls(tok) == IF tok = "[ab]" THEN {"a", "b"} ELSE {tok}
+RECURSIVE ReHere(_, _)      \* the token sequence r matches a prefix of s
+ReHere(r, s) ==
+    IF r = <<>> THEN TRUE
+    ELSE IF Head(r) = "$" THEN Len(r) = 1 /\ s = <<>>
+    ELSE IF Head(r) = ".*" THEN \E k \in 0..Len(s) : ReHere(Tail(r), SubSeq(s, k + 1, Len(s)))
+    ELSE s # <<>> /\ (Head(r) = "." \/ Head(s) \in Cls(Head(r))) /\ ReHere(Tail(r), Tail(s))
+ReMatch(r, s) ==
+    IF Head(r) = "^" THEN ReHere(Tail(r), s)
+    ELSE \E k \in 0..Len(s) : ReHere(r, SubSeq(s, k + 1, Len(s)))
+WellFormedRe(r) == \A i \in 1..Len(r) : (r[i] = "^" => i = 1) /\ (r[i] = "$" => i = Len(r))
+
+(* urlrule.StringMatch.Match: which of the rule's patterns accept the path *)
+PathVia(u, path) ==
+    (IF u.empty /\ path = <<>> THEN {"empty"} ELSE {}) \cup
+    (IF u.exact # <<>> /\ path = u.exact THEN {"exact"} ELSE {}) \cup
+    (IF u.prefix # <<>> /\ IsPrefix(u.prefix, path) THEN {"prefix"} ELSE {}) \cup
+    (IF u.regex # <<>> /\ ReMatch(u.regex, path) THEN {"regex"} ELSE {})
+
 (* urlrule.URLRule.Match *)
 Match(u, rq) ==
     /\ Len(u.ms) = 0 \/ \E i \in 1..Len(u.ms) : u.ms[i] = rq.m
-    /\ \/ u.exact # <<>> /\ rq.path = u.exact
-       \/ u.prefix # <<>> /\ IsPrefix(u.prefix, rq.path)
+    /\ PathVia(u, rq.path) # {}
 
 (* bindPolicyToURL: the first policy with the referenced (or the default) name *)
 PolName(s, u) == IF u.ref = "" THEN s.def ELSE u.ref
@@ -56,7 +80,9 @@ TmoMs(p) == IF p.tmo = -1 THEN 100 ELSE p.tmo * (PerMs(p) \div 2)
 Cap(p)   == EffL(p) * (TmoMs(p) \div PerMs(p) + 1)
 
 (* URLRule.DeepEqual and isSamePolicy *)
-SameRule(u, v) == u.ms = v.ms /\ u.exact = v.exact /\ u.prefix = v.prefix /\ u.ref = v.ref
+(* (DeepEqual does not look at url.empty: StringMatch.Validate allows it only without any other pattern, *)
+(* and a rule without any pattern and without it is rejected - so it is determined by the other fields)  *)
+SameRule(u, v) == u.ms = v.ms /\ u.exact = v.exact /\ u.prefix = v.prefix /\ u.regex = v.regex /\ u.ref = v.ref
 SamePolicy(s1, s2, ref) ==
     IF ref = "" THEN s1.def = s2.def /\ PolNamed(s1, s1.def) = PolNamed(s2, s1.def)
     ELSE PolNamed(s1, ref) = PolNamed(s2, ref)
@@ -67,10 +93,16 @@ Unchanged(sNew, j, sOld, i) ==
 (* limiter at all - an accepted-configuration crash that belongs to C13, not to C09)             *)
 ASSUME \A s \in Specs : \A i, j \in 1..Len(s.urls) : i # j => ~SameRule(s.urls[i], s.urls[j])
 ASSUME \A s \in Specs : \A i \in 1..Len(s.urls) : PolOf(s, s.urls[i]) # NoPol     \* Spec.Validate
+ASSUME \A s \in Specs : \A i \in 1..Len(s.urls) :                                \* StringMatch.Validate
+          LET u == s.urls[i] IN /\ WellFormedRe(u.regex)
+                                /\ u.empty <=> (u.exact = <<>> /\ u.prefix = <<>> /\ u.regex = <<>>)
 
 FirstHit(rq) ==
     LET I == {i \in 1..Len(spec.urls) : Match(spec.urls[i], rq)}
     IN  IF I = {} THEN 0 ELSE CHOOSE i \in I : \A j \in I : i <= j
+
+(* (observation only) the pattern through which the charged rule accepted the path, "several" if more than one did *)
+Via(u, path) == LET V == PathVia(u, path) IN IF Cardinality(V) = 1 THEN CHOOSE v \in V : TRUE ELSE "several"
 
 (* Handle, k times in a row with the same request (k = 1: a single request).  `adm` of the k    *)
 (* are admitted; the others get (rateLimited, 429)                                              *)
@@ -79,12 +111,12 @@ Serve(rq, k) ==
     /\ nreq < MaxReq /\ nreq' = nreq + 1
     /\ LET h == FirstHit(rq) IN
        IF h = 0
-       THEN /\ last' = [a |-> "req", m |-> rq.m, path |-> rq.path, k |-> k, hit |-> 0, adm |-> k]
+       THEN /\ last' = [a |-> "req", m |-> rq.m, path |-> rq.path, k |-> k, hit |-> 0, adm |-> k, via |-> "none"]
             /\ UNCHANGED used
        ELSE LET id == lims[h]
                 adm == Min(k, Cap(PolOf(spec, spec.urls[h])) - used[id])
             IN  /\ used' = [used EXCEPT ![id] = @ + adm]
-                /\ last' = [a |-> "req", m |-> rq.m, path |-> rq.path, k |-> k, hit |-> h, adm |-> adm]
+                /\ last' = [a |-> "req", m |-> rq.m, path |-> rq.path, k |-> k, hit |-> h, adm |-> adm, via |-> Via(spec.urls[h], rq.path)]
     /\ UNCHANGED <<spec, lims, nl, nrel>>
 
 (* reload(previousGeneration): rule by rule, first unchanged rule of the old generation wins *)
